@@ -23,6 +23,7 @@ import (
 	"sync"
 	"testing"
 	"testing/synctest"
+	"time"
 
 	"verifharness/internal/abs"
 
@@ -69,6 +70,7 @@ type variant struct {
 	Spawner    string `json:"spawner"`    // "default" | "recording" | "pool"
 	Classifier string `json:"classifier"` // "custom" | "default4xx"
 	Rot        int    `json:"rot"`        // rotation of the instance order inside a replication set
+	Ring       string `json:"ring"`       // "stub" | "real" (a real ring.Ring whose lookups give the case's replication sets)
 }
 
 type repErr struct {
@@ -134,6 +136,134 @@ func (r *stubRing) InstancesCount() int {
 	return r.ni
 }
 
+// realRing is a real ring.Ring (all instances ACTIVE, one token each, DefaultReplicationStrategy) together with
+// keys whose lookups give exactly the replication sets of a case; only cases that such a ring can produce
+// (every key has the same number rf of replicas, they are rf neighbours on a circle of the used instances, the
+// tolerance is rf - (rf/2+1)) have one.
+type realRing struct {
+	r    *ring.Ring
+	keys []uint32
+}
+
+// countingRing ends the caller's context inside the j-th lookup (what stubRing does itself).
+type countingRing struct {
+	ring.DoBatchRing
+	n, cancelAt int
+	cancel      context.CancelCauseFunc
+}
+
+func (c *countingRing) Get(key uint32, op ring.Operation, b []ring.InstanceDesc, s1, s2 []string) (ring.ReplicationSet, error) {
+	c.n++
+	if c.n == c.cancelAt {
+		c.cancel(errCtxCause)
+	}
+	return c.DoBatchRing.Get(key, op, b, s1, s2)
+}
+
+var (
+	realRings = map[string]*ring.Ring{}
+	realStops []func()
+)
+
+func permutations(xs []int) [][]int {
+	if len(xs) <= 1 {
+		return [][]int{append([]int(nil), xs...)}
+	}
+	var out [][]int
+	for i := range xs {
+		rest := append(append([]int(nil), xs[:i]...), xs[i+1:]...)
+		for _, p := range permutations(rest) {
+			out = append(out, append([]int{xs[i]}, p...))
+		}
+	}
+	return out
+}
+
+// realRingFor returns nil if no real ring produces the case's replication sets.
+func realRingFor(cfg *cfgT) (*realRing, error) {
+	if cfg.NK == 0 || cfg.NoInst || cfg.GetErrAt != 0 {
+		return nil, nil
+	}
+	rf := len(cfg.Reps[0])
+	used := map[int]bool{}
+	for k := range cfg.Reps {
+		if len(cfg.Reps[k]) != rf || cfg.MaxErr[k] != rf-(rf/2+1) {
+			return nil, nil
+		}
+		for _, i := range cfg.Reps[k] {
+			used[i] = true
+		}
+	}
+	var insts []int
+	for i := range used {
+		insts = append(insts, i)
+	}
+	sort.Ints(insts)
+	n := len(insts)
+	for _, circle := range permutations(insts) {
+		starts := make([]int, cfg.NK)
+		ok := true
+		for k := range cfg.Reps {
+			want := map[int]bool{}
+			for _, i := range cfg.Reps[k] {
+				want[i] = true
+			}
+			starts[k] = -1
+			for st := 0; st < n && starts[k] < 0; st++ {
+				all := true
+				for d := 0; d < rf; d++ {
+					all = all && want[circle[(st+d)%n]]
+				}
+				if all {
+					starts[k] = st
+				}
+			}
+			ok = ok && starts[k] >= 0
+		}
+		if !ok {
+			continue
+		}
+		id := fmt.Sprint(circle, rf)
+		r := realRings[id]
+		if r == nil {
+			desc := ring.NewDesc()
+			for pos, i := range circle {
+				desc.AddIngester(abs.InstID(i), "addr-"+abs.InstID(i), "", []uint32{uint32(pos+1) * 100000}, ring.ACTIVE, time.Now(), false, time.Time{}, nil)
+			}
+			var stop func()
+			var err error
+			r, stop, err = abs.NewRing(desc, ring.Config{ReplicationFactor: rf, HeartbeatTimeout: time.Hour, SubringCacheDisabled: true})
+			if err != nil {
+				return nil, err
+			}
+			realRings[id] = r
+			realStops = append(realStops, stop)
+		}
+		rr := &realRing{r: r, keys: make([]uint32, cfg.NK)}
+		for k := range cfg.Reps {
+			rr.keys[k] = uint32(starts[k]+1)*100000 - 1 - uint32(k)
+			// the lookup itself is C01's business: use the ring only if it answers what the case says
+			rs, err := r.Get(rr.keys[k], ring.Write, nil, nil, nil)
+			if err != nil || len(rs.Instances) != rf || rs.MaxErrors != cfg.MaxErr[k] {
+				return nil, nil
+			}
+			for _, d := range rs.Instances {
+				c := 0
+				fmt.Sscanf(d.Addr, "addr-i-%d", &c)
+				found := false
+				for _, i := range cfg.Reps[k] {
+					found = found || i == c
+				}
+				if !found {
+					return nil, nil
+				}
+			}
+		}
+		return rr, nil
+	}
+	return nil, nil
+}
+
 // env is one execution of the real DoBatchWithOptions under the driver's control.
 type env struct {
 	mu       sync.Mutex
@@ -157,6 +287,7 @@ type env struct {
 	parked  []string
 	yGate   []chan struct{}
 	pool    *concurrency.ReusableGoroutinesPool
+	real    *realRing
 }
 
 var curEnv *env // the env whose goroutines may call ring.VerifYield (one case at a time)
@@ -222,10 +353,14 @@ func (e *env) start(pre bool, cancelInGet int) {
 	for i := 1; i <= e.ni; i++ {
 		e.gates[i] = make(chan struct{})
 	}
-	stub := &stubRing{cfg: e.cfg, ni: e.ni, rot: e.v.Rot, cancelAt: cancelInGet, cancel: e.cancel}
+	var theRing ring.DoBatchRing = &stubRing{cfg: e.cfg, ni: e.ni, rot: e.v.Rot, cancelAt: cancelInGet, cancel: e.cancel}
 	keys := make([]uint32, e.cfg.NK)
 	for j := 1; j <= e.cfg.NK; j++ {
 		keys[j-1] = keyOf(j)
+	}
+	if e.real != nil {
+		theRing = &countingRing{DoBatchRing: e.real.r, cancelAt: cancelInGet, cancel: e.cancel}
+		keys = e.real.keys
 	}
 	opts := ring.DoBatchOptions{Cleanup: func() { e.mu.Lock(); e.cleanups++; e.mu.Unlock() }}
 	if e.v.Classifier == "custom" {
@@ -252,7 +387,7 @@ func (e *env) start(pre bool, cancelInGet int) {
 				e.mu.Unlock()
 			}
 		}()
-		err := ring.DoBatchWithOptions(e.ctx, ring.Write, stub, keys, e.callback, opts)
+		err := ring.DoBatchWithOptions(e.ctx, ring.Write, theRing, keys, e.callback, opts)
 		e.mu.Lock()
 		e.nret++
 		e.retErr = err
@@ -451,9 +586,10 @@ func sigOf(b *behaviour, s stepT, field, want, have string) string {
 }
 
 // runBehaviour drives one TLC behaviour through the real code; nil if everything agreed.
-func runBehaviour(t *testing.T, b *behaviour, v variant) (mm *abs.Mismatch) {
+func runBehaviour(t *testing.T, b *behaviour, v variant, real *realRing) (mm *abs.Mismatch) {
 	ni := len(b.Calls)
 	e := newEnv(&b.Cfg, ni, b.Grain == "hook", v)
+	e.real = real
 	fail := func(sig string, got, want any, note string) {
 		if mm == nil {
 			mm = &abs.Mismatch{Sig: sig, Case: map[string]any{"behaviour": b, "variant": v}, Got: got, Want: want, Note: note}
@@ -535,6 +671,7 @@ func variantFor(n int, seed int64, k int) variant {
 		Spawner:    []string{"default", "recording", "pool"}[r.Intn(3)],
 		Classifier: []string{"custom", "default4xx"}[r.Intn(2)],
 		Rot:        r.Intn(3),
+		Ring:       "stub",
 	}
 }
 
@@ -563,36 +700,74 @@ func TestReplay(t *testing.T) {
 	res := &abs.Result{}
 	nvar := abs.EnvInt("VERIF_VARIANTS", 1)
 	corrupt := abs.EnvInt("VERIF_CORRUPT", 0) // self-test: falsify one expected observation
-	steps := 0
-	err := abs.ReadNDJSON(in, func(line []byte) error {
-		var b behaviour
-		if err := json.Unmarshal(line, &b); err != nil {
-			return err
+	steps, eligible, realRuns := 0, 0, 0
+	byGrain := map[string]int{}
+	realEvery := abs.EnvInt("VERIF_REAL_EVERY", 4)
+	defer func() {
+		for _, stop := range realStops {
+			stop()
 		}
-		res.Cases++
-		if corrupt > 0 && res.Cases == corrupt {
-			b.Steps[len(b.Steps)-1].Obs.Cleaned ^= 1
+		realRings, realStops = map[string]*ring.Ring{}, nil
+	}()
+	var err error
+	for _, file := range strings.Split(in, ",") {
+		if err != nil {
+			break
 		}
-		if nontrivial(&b) {
-			res.Nontrivial++
-		}
-		steps += len(b.Steps)
-		for k := 0; k < nvar; k++ {
-			v := variantFor(res.Cases, abs.Seed(), k)
-			if mm := runBehaviour(t, &b, v); mm != nil {
-				res.Mismatch(*mm)
-				break
+		err = abs.ReadNDJSON(file, func(line []byte) error {
+			var b behaviour
+			if err := json.Unmarshal(line, &b); err != nil {
+				return err
 			}
-		}
-		if res.Cases%4001 == 7 {
-			res.Sample(b)
-		}
-		return nil
-	})
+			res.Cases++
+			if corrupt > 0 && res.Cases == corrupt {
+				b.Steps[len(b.Steps)-1].Obs.Cleaned ^= 1
+			}
+			if nontrivial(&b) {
+				res.Nontrivial++
+			}
+			steps += len(b.Steps)
+			failed := false
+			for k := 0; k < nvar && !failed; k++ {
+				v := variantFor(res.Cases, abs.Seed(), k)
+				if mm := runBehaviour(t, &b, v, nil); mm != nil {
+					res.Mismatch(*mm)
+					failed = true
+				}
+			}
+			// the same behaviour on a real ring.Ring, where one exists for the case (every realEvery-th eligible behaviour)
+			if !failed && realEvery > 0 {
+				rr, err := realRingFor(&b.Cfg)
+				if err != nil {
+					return err
+				}
+				if rr != nil {
+					eligible++
+					if (eligible+int(abs.Seed()))%realEvery == 0 {
+						v := variantFor(res.Cases, abs.Seed(), 99)
+						v.Ring = "real"
+						realRuns++
+						if mm := runBehaviour(t, &b, v, rr); mm != nil {
+							mm.Sig = "real-ring " + mm.Sig
+							res.Mismatch(*mm)
+						}
+					}
+				}
+			}
+			if res.Cases%4001 == 7 {
+				res.Sample(b)
+			}
+			byGrain[b.Grain]++
+			return nil
+		})
+	}
 	if err != nil {
 		res.Fatal = err.Error()
 	}
+	res.AddExtra("behaviours_by_grain", byGrain)
 	res.AddExtra("replayed_steps", steps)
+	res.AddExtra("real_ring_eligible", eligible)
+	res.AddExtra("real_ring_runs", realRuns)
 	res.Write(t)
 }
 
